@@ -1,6 +1,7 @@
 package ysgo
 
 import (
+	"github.com/remieven/ysgo/internal/container"
 	"github.com/remieven/ysgo/internal/tree"
 	"github.com/remieven/ysgo/variable"
 )
@@ -245,4 +246,147 @@ func VHRestoreHostBuilt() {
 		}
 	}
 	vReach("host-built")
+}
+
+// vSameElement: two results of Next are the same element (or the same kind of non-element).
+func vSameElement(a *DialogueElement, ea error, b *DialogueElement, eb error) bool {
+	if (ea != nil) != (eb != nil) || (a == nil) != (b == nil) {
+		return false
+	}
+	if ea != nil && (ea == ErrWaitingForCommandCompletion) != (eb == ErrWaitingForCommandCompletion) {
+		return false
+	}
+	if a == nil {
+		return true
+	}
+	if a.Node != b.Node || (a.Line == nil) != (b.Line == nil) || len(a.Options) != len(b.Options) {
+		return false
+	}
+	if a.Line != nil && a.Line.Text != b.Line.Text {
+		return false
+	}
+	for i := range a.Options {
+		if a.Options[i].Disabled != b.Options[i].Disabled || (a.Options[i].Line == nil) != (b.Options[i].Line == nil) {
+			return false
+		}
+		if a.Options[i].Line != nil && a.Options[i].Line.Text != b.Options[i].Line.Text {
+			return false
+		}
+	}
+	return true
+}
+
+// VHRestoreReplay (C07, the property's main clause taken literally): the original runs a looping script (as in
+// VHRevisit) until a call that entered a node; a snapshot is taken; the original goes on for STEPS calls. A fresh
+// runner of the same script (own storer, same host functions) is restored from the snapshot: its first call
+// returns what the original's entering call returned, and then, for the same choices, the same elements, one
+// after the other. (Host functions are deterministic here and the host writes nothing in between.)
+func VHRestoreReplay() {
+	w := vNewWorld(0, false) // params: DEPTH=0 LAST=0 (a runner that has not started)
+	dr := w.dr
+	dr.AddFunction("probe", func(args []*variable.Value) (*variable.Value, error) { // deterministic in this harness
+		w.probes = append(w.probes, vHandlerCall{"probe", args})
+		return variable.NewNumber(1), nil
+	})
+	S := w.vStatement("head", vParam("BUDGET", 1), false)
+	back := func() *tree.Statement {
+		return &tree.Statement{JumpStatement: &tree.JumpStatement{Expression: vValExpr(variable.NewString("n0"))}}
+	}
+	w.nodes[0].Statements = []*tree.Statement{S, w.newLineStmt("L"), back()}
+	for i := 1; i <= 2; i++ {
+		w.nodes[i].Statements = append(w.nodes[i].Statements, back())
+	}
+	vAssume(dr.currentNode == "n0")
+	stack := container.Stack[*statementQueue]{}
+	stack.Push(&statementQueue{statements: w.nodes[0].Statements})
+	dr.statementsToRun = stack
+
+	choose := func(t string) int {
+		if dr.isWaitingForChoice() {
+			return vChoose(t+".choice", len(dr.lastStatement.ShortcutOptionStatement.Options))
+		}
+		return vInt(t + ".choice")
+	}
+	settle := func(err error) { // a command that is pending reports completion before the next call
+		if err == ErrWaitingForCommandCompletion && w.pending != nil {
+			w.pending <- nil
+			w.pending = nil
+		}
+	}
+	// the original, until a call that entered a node (a call that loops for ever does not return: outside the bound)
+	var e0 *DialogueElement
+	var err0 error
+	entered := false
+	for i := 0; i < 4 && !entered; i++ {
+		visits := 0
+		for _, c := range dr.visitedNodes {
+			visits += c
+		}
+		node := dr.currentNode
+		pre := vEnvOf(w.store)
+		pre.probeOK = func(int) bool { return true }
+		pre.visits = vCopyVisits(dr.visitedNodes)
+		var waiting *tree.ShortcutOptionStatement
+		if dr.isWaitingForChoice() {
+			waiting = dr.lastStatement.ShortcutOptionStatement
+		}
+		c := choose("pre" + vItoa(i))
+		w.vSpecNext(pre, vFlatten(dr), waiting, node, c) // leaves the path if the call would not return
+		e0, err0 = dr.Next(c)
+		settle(err0)
+		after := 0
+		for _, c := range dr.visitedNodes {
+			after += c
+		}
+		entered = after != visits || dr.currentNode != node
+		if e0 == nil && err0 == nil {
+			return // the dialogue ended before any node was entered
+		}
+	}
+	if !entered {
+		return
+	}
+	vReach("entered")
+	snap := dr.Snapshot()
+	// a fresh runner of the same script, restored
+	dr2 := vRunnerAt(variable.NewInMemoryStorer(), dr.dialogue, "n0", w.nodes[0].Statements...)
+	w.registerHost(dr2)
+	dr2.AddFunction("probe", func(args []*variable.Value) (*variable.Value, error) { return variable.NewNumber(1), nil })
+	if dr2.RestoreAt(snap) != nil {
+		vAssert(false, "a fresh runner accepts a snapshot of the same script")
+		return
+	}
+	f0, ferr0 := dr2.Next(vInt("restored.first.choice"))
+	settle(ferr0)
+	vAssert(vSameElement(e0, err0, f0, ferr0), "the restored runner's first call returns what the original's entering call returned")
+	if e0 == nil {
+		vReach("entering-call-failed")
+	}
+	steps := vParam("STEPS", 3)
+	for i := 0; i < steps; i++ {
+		t := "step" + vItoa(i)
+		vAssert(dr.isWaitingForChoice() == dr2.isWaitingForChoice(), "both await a choice, or neither")
+		pre := vEnvOf(w.store)
+		pre.probeOK = func(int) bool { return true }
+		pre.visits = vCopyVisits(dr.visitedNodes)
+		var waiting *tree.ShortcutOptionStatement
+		if dr.isWaitingForChoice() {
+			waiting = dr.lastStatement.ShortcutOptionStatement
+		}
+		c := choose(t)
+		w.vSpecNext(pre, vFlatten(dr), waiting, dr.currentNode, c)
+		a, ea := dr.Next(c)
+		settle(ea)
+		b, eb := dr2.Next(c)
+		settle(eb)
+		vAssert(vSameElement(a, ea, b, eb), "for the same choices the restored runner returns the same elements as the original")
+		if a == nil && ea == nil {
+			vReach("both-ended")
+			return
+		}
+		if a != nil && len(a.Options) > 0 {
+			vReach("same-options")
+		}
+	}
+	vReach("replayed")
 }
